@@ -13,6 +13,11 @@ from common import *
 
 STARTS = ["0", "1", "0.5", "0.05", "2.25", "100", "1000.1"]
 DTS = ["1", "0.5", "0.25", "0.125", "0.2", "0.1", "0.05", "0.02", "0.01", "0.001"]
+# wave 3: starts that are not a multiple of dt and have more decimals than dt (all channels)
+EXTRA_PAIRS = [("0.25", "0.5"), ("1.125", "0.25"), ("0.3", "0.25"), ("0.05", "0.5"), ("2.25", "1"), ("0.375", "0.125"), ("0.3", "0.2")]
+# how a session is begun: explicit starttime and dt | no starttime/dt argument (defaults 0.0 / the scenario's dt) |
+# starttime below the scenario start, no dt | explicit starttime, no dt
+SESSION_MODES = ["explicit", "default", "below", "start-only"]
 SCALE_SAMPLES = ["0", "1", "0.5", "0.05", "2.25", "100", "1000.1", "0.125", "0.001", "1e-05", "0.00015", "2.5e-07",
                  "123456.789", "99999.99999", "0.1", "0.3", "7", "10", "1000", "12345678.123456", "9999999999999",
                  "99999999999999", "123456789012345", "0.0625", "3.14159", "1e-13", "0.99999999999999"]
@@ -116,16 +121,29 @@ def ch_batch(start, dt, ns):
     return out
 
 
-def ch_session(start, dt, n, calls):
+def session_arg(mode, start):
+    """the `starttime` argument begin_session receives in this mode, as the decimal string the driver gets"""
+    return {"explicit": start, "start-only": start, "default": "0", "below": dstr(D(start) - D("0.5")) if D(start) >= D("0.5") else "0"}[mode]
+
+
+def ch_session(start, dt, n, calls, mode="explicit"):
     """`calls` run_step calls on a scenario with stop = start+n*dt: keys per call ('stop' when refused);
-    also the keys of session_results()."""
+    also the keys of session_results().  A step whose TIME value is not its own label, or whose stock value is not the
+    Euler value of that grid point, is marked."""
     stop = float(dstr(D(start) + n * D(dt)))
     with Bptk() as b:
         m = build_model(float(start), stop, float(dt), name="g")
         b.register_model(m)
-        b.begin_session(scenarios=["base"], scenario_managers=["smG"], equations=["s", "tm"],
-                        starttime=float(start), dt=float(dt))
+        kw = {}
+        if mode in ("explicit", "start-only"):
+            kw["starttime"] = float(start)
+        elif mode == "below":
+            kw["starttime"] = float(session_arg(mode, start))
+        if mode == "explicit":
+            kw["dt"] = float(dt)
+        b.begin_session(scenarios=["base"], scenario_managers=["smG"], equations=["s", "tm"], **kw)
         per = []
+        sv, k = 0.0, 0
         for _ in range(calls):
             r = b.run_step()
             if r is None or "msg" in r:
@@ -135,6 +153,11 @@ def ch_session(start, dt, n, calls):
             ks = labels(eq["tm"].keys())
             if labels(eq["s"].keys()) != ks:
                 ks += "|s:" + labels(eq["s"].keys())
+            if any(fbits(t) != fbits(v) for t, v in eq["tm"].items()):
+                ks += "|TIME=" + labels(eq["tm"].values())
+            if [fbits(v) for v in eq["s"].values()] != [fbits(sv)]:
+                ks += "|stock=" + labels(eq["s"].values()) + "(step %d: Euler value %r)" % (k, sv)
+            sv, k = sv + float(dt) * (1.0), k + 1
             per.append(ks)
         log_keys = labels(b.session_results().keys())
         b.end_session()
@@ -308,21 +331,25 @@ def probe():
     facts["plotBoundInclusive"] = b["plot"] == "0.0,0.1,0.2"
     per, _ = ch_session("0", "0.1", 5, 5)
     facts["stepClockNormalised"] = per == "0.0;0.1;0.2;0.3;0.4"
-    facts["_observed"] = {"run(0,0.2,0.1)": b["run"], "plot(0,0.2,0.1)": b["plot"], "session(0,0.5,0.1)x5": per}
+    per2, _ = ch_session("0.25", "0.5", 3, 5, mode="default")
+    facts["sessionOriginEffective"] = per2 == "0.25;0.75;1.25;1.75;stop"
+    facts["_observed"] = {"run(0,0.2,0.1)": b["run"], "plot(0,0.2,0.1)": b["plot"], "session(0,0.5,0.1)x5": per,
+                          "session(0.25,1.75,0.5)x5 begun without starttime/dt": per2}
     return facts
 
 
 def cfg_bits(f):
-    return "".join("1" if f[k] else "0" for k in ("simBoundInclusive", "plotBoundInclusive", "stepClockNormalised"))
+    return "".join("1" if f[k] else "0" for k in ("simBoundInclusive", "plotBoundInclusive", "stepClockNormalised", "sessionOriginEffective"))
 
 
 def gen_lean(f):
     tf = lambda v: "true" if v else "false"
-    good = f["simBoundInclusive"] and f["plotBoundInclusive"] and f["stepClockNormalised"]
+    good = f["simBoundInclusive"] and f["plotBoundInclusive"] and f["stepClockNormalised"] and f["sessionOriginEffective"]
     head = ("import Bptk.Props.C05\n/-! GENERATED by harness/props/c05.py from /repo on every run — do not edit. -/\n"
             "namespace Bptk.C05.Gen\n"
             f"def cfg : Cfg := {{ simBoundInclusive := {tf(f['simBoundInclusive'])}, "
-            f"plotBoundInclusive := {tf(f['plotBoundInclusive'])}, stepClockNormalised := {tf(f['stepClockNormalised'])} }}\n")
+            f"plotBoundInclusive := {tf(f['plotBoundInclusive'])}, stepClockNormalised := {tf(f['stepClockNormalised'])}, "
+            f"sessionOriginEffective := {tf(f['sessionOriginEffective'])} }}\n")
     if good:
         body = "theorem holds : C05_full cfg := C05_full_of_good cfg (by decide)\n#print axioms holds\n"
     else:
@@ -336,6 +363,9 @@ def gen_lean(f):
         if not f["plotBoundInclusive"]:
             body += ("theorem violated_plotBound : ¬ C05_full cfg := C05_witness_plotBound cfg (by decide)\n"
                      "#print axioms violated_plotBound\n")
+        if not f["sessionOriginEffective"]:
+            body += ("theorem violated_sessionOrigin : ¬ C05_full cfg := C05_witness_sessionOrigin cfg (by decide)\n"
+                     "#print axioms violated_sessionOrigin\n")
         body += "#print axioms C05_partial\n"
     return head + body + "end Bptk.C05.Gen\n"
 
@@ -352,7 +382,7 @@ def first_diff(a, b, sep=","):
     return None
 
 
-def check_channel(channel, start, dt, n, calls=None):
+def check_channel(channel, start, dt, n, calls=None, mode="explicit"):
     """(observed, expected) of one channel on the current tree — used by the run and by replay."""
     g = grid(start, dt, n)
     if channel == "timerange-incl":
@@ -364,10 +394,10 @@ def check_channel(channel, start, dt, n, calls=None):
     if channel == "session":
         calls = calls or n + 3
         exp = ";".join((g + ["stop"] * calls)[:calls])
-        return ch_session(start, dt, n, calls)[0], exp
+        return ch_session(start, dt, n, calls, mode)[0], exp
     if channel == "session-log":
         calls = calls or n + 3
-        return ch_session(start, dt, n, calls)[1], ",".join(g[:calls])
+        return ch_session(start, dt, n, calls, mode)[1], ",".join(g[:calls])
     if channel == "routes":
         rs, fresh, shared = ch_routes(start, dt, n)
         obs = ";".join("/".join(f"{fresh[r][k][0]}:{fresh[r][k][1]}" for r in range(3)) for k in range(n + 1))
@@ -437,7 +467,7 @@ def run(chk):
     ref_fail = {}                     # key -> first (channel,start,dt,n,observed,expected)
     def ref(channel, start, dt, n, observed, expected, extra=None):
         if observed != expected:
-            key = KEYS[channel]
+            key = (extra or {}).get("key", KEYS[channel])
             if key not in ref_fail:
                 ref_fail[key] = (channel, start, dt, n, observed, expected, extra)
     dist = {"pairs": 0, "timerange": 0, "batch": 0, "session_calls": 0, "route_points": 0, "scale": 0}
@@ -473,8 +503,9 @@ def run(chk):
         chk.case(("reqset", start, dt, n), nontrivial=True)
     sess_subset = [0, 1, 2, 3, 7, 8, 12] if chk.quick else list(range(0, 41)) + [57, 100, 143]
     budget_hit = False
-    for start in STARTS:
-        for dt in DTS:
+    all_pairs = [(st, d_) for st in STARTS for d_ in DTS] + EXTRA_PAIRS
+    for start, dt in all_pairs:
+        if True:
             dist["pairs"] += 1
             nontriv = (D(dt) not in (D(1), D("0.5"), D("0.25"), D("0.125"))) or D(start) != D(start).to_integral()
             stops = {n: dstr(D(start) + n * D(dt)) for n in ns_all}
@@ -523,6 +554,25 @@ def run(chk):
                 dist["session_calls"] += calls
                 chk.case(("session", start, dt, n), nontrivial=nontriv,
                          sample=f"session start={start} dt={dt} n={n}: {per[:60]}" if (n == 8 and dt == "0.1") else None)
+            # 3b. the ways of beginning a session (wave 3): without starttime / dt arguments, with a starttime below the
+            #     scenario start, with starttime only — step keys, TIME = label, stock = Euler value, number of steps
+            off_grid = (D(start) % D(dt)) != 0
+            for mode in SESSION_MODES[1:]:
+                for n in ([2, 7] if chk.quick else [0, 1, 2, 3, 7, 8, 12, 40]):
+                    if n > nmax or (chk.quick and not off_grid and mode != "default"):
+                        continue
+                    calls = n + 3
+                    per, logk = ch_session(start, dt, n, calls, mode)
+                    g = grid(start, dt, n)
+                    add(f"sessiona {cb} {session_arg(mode, start)} {start} {stops[n]} {dt} {calls}", per,
+                        ("session:" + mode, start, dt, n))
+                    ref("session", start, dt, n, per, ";".join(g + ["stop"] * 2), {"calls": calls, "mode": mode, "key": "session-grid-origin"})
+                    ref("session-log", start, dt, n, logk, ",".join(g), {"calls": calls, "mode": mode, "key": "session-grid-origin"})
+                    dist["session_calls"] += calls
+                    dist["session_modes"] = dist.get("session_modes", 0) + 1
+                    chk.case(("session", mode, start, dt, n), nontrivial=off_grid or nontriv,
+                             sample=(f"session begun without starttime/dt, scenario start={start} dt={dt} n={n}: {per[:60]}"
+                                     if (mode, start, dt, n) == ("default", "0.25", "0.5", 2) else None))
             # 4. routes
             rs, fresh, shared = ch_routes(start, dt, nmax)
             g = grid(start, dt, nmax)
@@ -538,8 +588,6 @@ def run(chk):
             if chk.quick and time.time() - t_start > 150:
                 budget_hit = True
                 break
-        if budget_hit:
-            break
     if budget_hit:
         chk.cov["exhaustive"] = False
         chk.notes["budget"] = "quick-tier time budget hit before the lattice was finished"
@@ -555,7 +603,7 @@ def run(chk):
         rp = {"channel": channel, "start": start, "dt": dt, "n": n, "observed": obs[:600], "expected": exp[:600],
               "first_difference": fd}
         rp.update(extra or {})
-        chk.add_finding(key, f"{channel} start={start} dt={dt} n={n}: first difference at position "
+        chk.add_finding(key, f"{channel}{' (session begun in mode ' + extra['mode'] + ')' if extra and 'mode' in extra else ''} start={start} dt={dt} n={n}: first difference at position "
                              f"{fd[0] if fd else '?'}: got {fd[1] if fd else obs[:60]!r}, grid says {fd[2] if fd else exp[:60]!r}", rp)
     if not ok:
         chk.add_finding("obligation", f"proof obligations of C05 no longer check: {why}",
@@ -577,11 +625,11 @@ def replay(path):
         return 1
     try:
         with Watchdog(r.get("timeout_s", 120)):
-            obs, exp = check_channel(r["channel"], r["start"], r["dt"], r["n"], r.get("calls"))
+            obs, exp = check_channel(r["channel"], r["start"], r["dt"], r["n"], r.get("calls"), r.get("mode", "explicit"))
     except TimeoutError:
         print(f"channel={r['channel']} start={r['start']} dt={r['dt']} n={r['n']}: no answer within the time limit — still failing")
         return 1
-    print(f"channel={r['channel']} start={r['start']} dt={r['dt']} n={r['n']}")
+    print(f"channel={r['channel']} start={r['start']} dt={r['dt']} n={r['n']}" + (f" session mode={r['mode']}" if "mode" in r else ""))
     print("observed:", obs[:600])
     print("expected:", exp[:600])
     print("still failing" if obs != exp else "agrees with the grid now")
